@@ -51,7 +51,9 @@ CONTRACTS[(EPATH, 'greedy_decode_ctc')] = Contract(
         'assert scores_probs.shape[0] == NN and scores_probs.shape[1] == CC and scores_probs.shape[2] == TT + 1',
         'assert forall(lambda n, c, t: implies(0 <= n and n < NN and 0 <= c and c < CC and 0 <= t and t < TT, scores_probs[n, c, t + 1] == S0[n, c, t]))',
         'assert forall(lambda n, c: implies(0 <= n and n < NN and 0 <= c and c < CC, scores_probs[n, c, 0] == ite(c == CC - 1, 1000, -1000)))',
-    ], 'best = torch.argmax(scores_probs, 1) + 1': [
+    ]},
+    # anchored BEFORE the statements that use the values (robust against how `best` is computed: one statement or several)
+    ghost_before={'mask = best[:, :-1] == best[:, 1:]': [
         'assert best.shape[0] == NN and best.shape[1] == TT + 1',
         'assert forall(lambda n: implies(0 <= n and n < NN, best[n, 0] == CC))',
         # both arg-max notions (the code's, on the shifted tensor, and the specification's, on the original) bound each other ...
@@ -62,7 +64,7 @@ CONTRACTS[(EPATH, 'greedy_decode_ctc')] = Contract(
         'assert forall(lambda n, t: implies(0 <= n and n < NN and 0 <= t and t < TT, AM(n, t) <= best[n, t + 1] - 1))',
         # ... hence they are the same first maximiser
         'assert forall(lambda n, t: implies(0 <= n and n < NN and 0 <= t and t < TT, best[n, t + 1] == AM(n, t) + 1))',
-    ], 'best = best.cpu().numpy() - 1': [
+    ], 'outputs = []': [
         'assert best.shape[0] == NN and best.shape[1] == TT',
         # frame t of line n survives iff its arg-max class is not blank and differs from the previous frame's; the surviving entry is that class
         'assert forall(lambda n, t: implies(0 <= n and n < NN and 0 <= t and t < TT, '
